@@ -1,4 +1,4 @@
-import Saito.Lemmas.CodecTotal
+import Saito.Lemmas.Msg
 /-!
 # C10 — decoders are total
 `*_total` theorems: for every byte string the decoder returns a value or an error, never `.panic`
@@ -26,5 +26,37 @@ theorem tx_panic_only_if (fl : CodecFlags) (bs : Bytes) (h : Tx.decode fl bs = .
 /-- a 93-byte header that claims one input: the pinned decoder panics -/
 def txWitness : Bytes := [0, 0, 0, 1] ++ List.replicate 89 0
 theorem tx_witness : Tx.decode CodecFlags.pinned txWitness = .panic := by decide
+
+/-! ### blocks: total on every tree -/
+theorem block_total (fl : CodecFlags) (bs : Bytes) : Block.decode fl bs ≠ .panic := Block.decode_ne_panic fl bs
+
+/-! ### chain sync, golden ticket, wallet file -/
+theorem ghost_total_fixed (fl : CodecFlags) (hf : fl.ghostBounds = true) (bs : Bytes) : Ghost.decode fl bs ≠ .panic :=
+  Ghost.decode_ne_panic_fixed fl hf bs
+/-- EXACT panic set of the pinned chain-sync decoder -/
+theorem ghost_panic_iff (fl : CodecFlags) (hf : fl.ghostBounds = false) (bs : Bytes) :
+    Ghost.decode fl bs = .panic ↔ (bs.length < 36 ∨ (bs.drop 36).length < fromBE ((bs.drop 32).take 4) * 82) :=
+  Ghost.decode_panic_iff fl hf bs
+theorem ghost_witness : Ghost.decode CodecFlags.pinned (List.replicate 10 0) = .panic := by decide
+theorem gt_total_fixed (fl : CodecFlags) (hf : fl.gtTotal = true) (bs : Bytes) : GoldenTicket.decode fl bs ≠ .panic :=
+  GoldenTicket.decode_ne_panic_fixed fl hf bs
+theorem gt_panic_iff (fl : CodecFlags) (hf : fl.gtTotal = false) (bs : Bytes) :
+    GoldenTicket.decode fl bs = .panic ↔ bs.length ≠ 97 := GoldenTicket.decode_panic_iff fl hf bs
+theorem wallet_total_fixed (fl : CodecFlags) (hf : fl.walletTotal = true) (bs : Bytes) : WalletFile.decode fl bs ≠ .panic :=
+  WalletFile.decode_ne_panic_fixed fl hf bs
+theorem wallet_panic_iff (fl : CodecFlags) (hf : fl.walletTotal = false) (bs : Bytes) :
+    WalletFile.decode fl bs = .panic ↔ bs.length < 65 := WalletFile.decode_panic_iff fl hf bs
+
+/-! ### handshake, services, the whole message layer -/
+theorem handshake_response_total (bs : Bytes) : HsResponse.decode bs ≠ .panic := HsResponse.decode_ne_panic bs
+theorem services_total (bs : Bytes) : decServices bs ≠ .panic := decServices_ne_panic bs
+/-- all 15 tags and every unknown tag: total once the two peer-facing decoders check bounds -/
+theorem message_total_fixed (fl : CodecFlags) (h1 : fl.txBounds = true) (h2 : fl.ghostBounds = true) (bs : Bytes) :
+    Msg.decode fl bs ≠ .panic := Msg.decode_ne_panic_fixed fl h1 h2 bs
+/-- on every tree a message can only panic through tag 4 or tag 10 (so a panic under any other tag is a
+    disagreement with the model, never a listed finding) -/
+theorem message_panic_only_tags (fl : CodecFlags) (bs : Bytes) (h : Msg.decode fl bs = .panic) :
+    ∃ b, (bs = 4 :: b ∧ Tx.decode fl b = .panic) ∨ (bs = 10 :: b ∧ Ghost.decode fl b = .panic) :=
+  Msg.decode_panic_only_tags fl bs h
 
 end Saito.C10
